@@ -567,6 +567,12 @@ MUTANTS = [
                 Edge::Argument(_) => Some(e.id()),
             });
 """),
+    dict(id="ctl-rename-anchored-resolver-fn", prop="ALL", control=True, file="crates/wac-parser/src/resolution.rs", multi=True,
+         old="inferred_instantiation_arg", new="infer_argument_name"),
+    dict(id="ctl-rename-aggregator-search", prop="ALL", control=True, file="crates/wac-types/src/aggregator.rs", multi=True,
+         old="find_semver_compatible_import", new="lookup_compatible_import"),
+    dict(id="ctl-rename-encoder-fn", prop="ALL", control=True, file="crates/wac-graph/src/encoding.rs", multi=True,
+         old="import_deps", new="import_dependencies"),
     dict(id="ctl-unset-find-map-guarded", prop="ALL", control=True, file="crates/wac-graph/src/graph.rs",
          old="""        let mut edge = None;
         for e in self.graph.edges_connecting(argument.0, instantiation.0) {
@@ -731,6 +737,16 @@ MUTANTS = [
          new="""                        .iter()
                         .skip(1)
                         .find(|(import_name, _)| are_semver_compatible(name, import_name))"""),
+    dict(id="c14-revert-d21-interface-type-after-func", prop="C14", expect="R14.9|fresh|resolution::AstResolver::item_type_decl", file="crates/wac-parser/src/resolution.rs",
+         old="""                    if matches!(ty.exports.get(id.string), Some(kind) if !matches!(kind, ItemKind::Type(_)))
+                    {
+                        return Err(Error::DuplicateInterfaceExport {
+                            name: id.string.to_owned(),
+                            interface_name: name.map(ToOwned::to_owned),
+                            span: id.span,
+                        });
+                    }
+""", new=""),
     dict(id="c12-lexical-comment-needs-newline", prop="C12", expect="R12.10|pattern|Token::Comment", file="crates/wac-parser/src/lexer.rs",
          old="""    #[regex(r"//[^\\n]*", logos::skip)]""", new="""    #[regex(r"//[^\\n]*\\n", logos::skip)]"""),
     dict(id="c12-lexical-ident-digit-start", prop="C12", expect="R12.10|pattern|Token::Ident", file="crates/wac-parser/src/lexer.rs",
